@@ -22,6 +22,16 @@ def run(chk, prog):
     chk.not_decided += ['heap growth of repeated reset/load beyond the size of the state (a quantity)',
                         'cycles created through host-provided trait objects (observers, externals)']
 
+    # content objects are not appended to while playing: the one interior-mutable collection of a content node that play
+    # writes (the origins of a list literal) is rebuilt, not grown
+    from rules.c07 import origins_rebuilt_on_push
+    from analysis.defuse import Tracer as _Tr
+    origins_rebuilt_on_push(chk, prog, _Tr(prog), 'C18.content-nodes-do-not-grow',
+                            'A list literal in the content tree is the very object pushed on the evaluation stack, and it '
+                            'survives reset_state and load_state. push_evaluation_stack writes its interior-mutable origins: '
+                            'every push there is preceded by a clear, so repeated play / reset / load of one story instance '
+                            'does not append definition clones to content nodes for ever (same clause as '
+                            'C07.origins-recomputed-on-push).')
     impls = prog.impls_of_trait('bladeink::object::RTObject')
     if not chk.anchor('C18.strong-edge', 'impls of bladeink::object::RTObject', impls):
         return
